@@ -825,6 +825,20 @@ def specs(draw, fl: Flags | None = None):
         if draw(st.booleans()):
             alts.reverse()
         new_conc(draw(st.sampled_from(abs_names)), [["f0", ["union", alts]]])
+    if fl.infeasible and fl.dependent and not fl.class_fields_only and not fl.finite_choice and draw(st.integers(0, 3)) == 0:
+        # a backtracking trap: non-terminal T0 -> TF | TD where TF can never be completed (its dependent
+        # refinement has no admissible value) although the grammar analysis counts it as the shallow
+        # production, and the only sibling TD sits on a chain of stand-alone productions that needs more
+        # levels; T0 is used by a production of the main hierarchy, which has other alternatives
+        abstracts.append({"name": "T0", "parent": None, "style": "decorator"})
+        tf = new_conc("T0", [["d0", ["ann", ["int"], ["IntRange", 0, 0]]], ["d1", ["ann", ["str"], ["Dependent", "d0", ["varrange_prefix", ["x", "y"]]]]]])
+        s0 = new_conc(None, [["f0", ["ann", ["int"], ["IntRange", 0, 1]]]])
+        s1 = new_conc(None, [["f0", ["ref", s0["name"]]]])
+        td = new_conc("T0", [["f0", ["ref", s1["name"]]]])
+        if draw(st.booleans()):
+            i, j = concretes.index(tf), concretes.index(td)
+            concretes[i], concretes[j] = concretes[j], concretes[i]
+        new_conc(draw(st.sampled_from(abs_names)), [["f0", ["ref", "T0"]]])
     if fl.memo_fields:
         for c in concretes:
             if c.get("style") != "plain" and draw(st.integers(0, 5)) == 0:
